@@ -33,8 +33,10 @@ static std::string execute(const ShapeDesc& s, const std::vector<int>& ops, std:
   std::unique_ptr<M> mp(new M); M& m = *mp;
   g_live = -1000;             // value at creation time: must not be what LR_CO_YIELD yields
   E e = s.make(m);
-  if (s.live) g_live = s.live;
-  std::vector<std::unique_ptr<ICoro>> co; std::vector<std::vector<std::string>> ev; std::vector<bool> destroyed; bool mock_dead = false;
+  if (s.live) g_live = s.live < 0 ? -s.live : s.live;
+  const bool moving = s.live < 0;   // the variable the LR_ clauses name changes after every step of any coroutine: each value is read when it is produced
+  std::vector<std::unique_ptr<ICoro>> co; std::vector<std::vector<std::string>> ev, dyn; std::vector<bool> destroyed; bool mock_dead = false;
+  auto expect_now = [&](size_t c) { size_t k = ev[c].size(); dyn[c].push_back(k < (size_t)s.nyield ? "Y" + std::to_string(g_live + (int)k) : std::string(s.terminal)); };
   std::vector<std::string> want = expected_events(s);
   std::string bad;
   for (int op : ops) {
@@ -42,9 +44,9 @@ static std::string execute(const ShapeDesc& s, const std::vector<int>& ops, std:
       int before = g_side_effects;
       try { co.push_back(s.call(m)); } catch (Fatal&) { bad = "call rejected: " + (g_reports.empty() ? std::string("?") : g_reports.back()); break; }
       catch (std::exception& x) { bad = std::string("the call itself threw: ") + x.what(); break; }
-      ev.emplace_back(); destroyed.push_back(false);
+      ev.emplace_back(); dyn.emplace_back(); destroyed.push_back(false);
       if (g_side_effects != before + 1 && bad.empty()) bad = "SIDE_EFFECT did not run exactly once at call time";
-      std::string a = co.back()->at_call(); if (!a.empty()) ev.back().push_back(a);
+      std::string a = co.back()->at_call(); if (!a.empty()) { expect_now(ev.size() - 1); ev.back().push_back(a); if (moving) ++g_live; }
       if (trace) *trace += "call->c" + std::to_string(co.size() - 1) + (a.empty() ? "" : "[" + a + "]") + " ";
     } else if (op == -100) {
       // the mock object dies while its coroutines are suspended; the NAMED expectation stays alive, so they must still run to their end
@@ -54,7 +56,9 @@ static std::string execute(const ShapeDesc& s, const std::vector<int>& ops, std:
       if (trace) *trace += "destroy-mock ";
     } else if (op >= 0) {
       int before = g_side_effects;
+      expect_now((size_t)op);
       std::string r = co[(size_t)op]->step(); ev[(size_t)op].push_back(r);
+      if (moving) ++g_live;
       if (g_side_effects != before && bad.empty()) bad = "SIDE_EFFECT ran during a resume";
       if (trace) *trace += "c" + std::to_string(op) + ":" + r + " ";
     } else {
@@ -63,7 +67,7 @@ static std::string execute(const ShapeDesc& s, const std::vector<int>& ops, std:
     }
   }
   if (bad.empty()) for (size_t i = 0; i < ev.size(); ++i) {
-    std::vector<std::string> w = want; if (destroyed[i]) w.resize(std::min(w.size(), ev[i].size()));
+    std::vector<std::string> w = moving ? dyn[i] : want; if (destroyed[i]) w.resize(std::min(w.size(), ev[i].size()));
     if (ev[i] != w) { bad = "coroutine " + std::to_string(i) + " produced ["; for (auto& x : ev[i]) bad += x + " "; bad += "] expected ["; for (auto& x : w) bad += x + " "; bad += "]"; break; }
   }
   if (bad.empty() && !g_reports.empty()) bad = "unexpected report: " + g_reports[0];
